@@ -33,3 +33,6 @@ func (t *tracer) collect() ([]Ev, int) { return nil, 0 }
 func execTraced(t *tracer, re *process.RuntimeEnvironment, procs []*process.Process, sched [][]int) (int, string) {
 	return -1, ""
 }
+
+func setMaxEvents(t *tracer, n int) {}
+func overflowed(t *tracer) bool     { return false }
